@@ -129,7 +129,7 @@ package iobroker
 //@   on recv b.ich(l, ok): assert(phase == 0, "previous_line_fully_delivered_before_next_is_taken"); if ok { phase = 1; cur = l }
 //@   on call io.WriteString(ww, s) (n, e): assert(phase == 1 && ww == w && s == cur + "\n", "write_exactly_line_plus_newline_once"); phase = 2; failed = e != nil
 //@   on call <iface>.FlushError(f) (e): assert(phase == 2 && !failed && f == w, "flush_after_successful_write"); phase = 3; failed = e != nil
-//@   on call http.Flusher.Flush(f): assert(phase == 2 && !failed && f == w, "flush_after_successful_write"); phase = 3
+//@   on call http.Flusher.Flush(f): assert(phase == 2 && !failed && f == w, "flush_after_successful_write"); assert(!implements(w, "interface{FlushError() error}"), "flush_errors_are_never_discarded_when_the_writer_can_report_them"); phase = 3
 //@   on call slog.Logger.Info(ll, m, v): assert(m == LMShellIO && !failed && (phase == 3 || (phase == 2 && !implements(w, "interface{FlushError() error}") && !implements(w, "net/http.Flusher"))), "logged_iff_written_and_flushed"); assert(unboxStr(v[1]) == cur + "\n", "log_data_is_the_delivered_line"); phase = 0
 //@   loop 1
 //@     invariant idle: phase == 0
